@@ -22,7 +22,7 @@ THOROUGH = {"exhaustive": (4, 2, 2, 2), "deep": (8, 3, 3, 3), "deep_budget": 150
 def run_shards(harness, argsets):
     procs = []
     for a in argsets:
-        procs.append(subprocess.Popen([harness] + [str(x) for x in a], stdout=subprocess.PIPE, stderr=subprocess.DEVNULL))
+        procs.append(common.FileProc([harness] + [str(x) for x in a]))
     outs = []
     for p in procs:
         o, _ = p.communicate()
